@@ -46,6 +46,10 @@ def check (p : Params) (tr : List Obs) (_ : EndInfo) : List Viol :=
   -- accepted submissions in acceptance order
   let (qs, _) := tr.foldl (fun (acc : List QItems × Nat) o => match o with
     | .call _ _ (.add q k prio) => (acc.1.set q ((acc.1.getD q []) ++ [(k, prio, acc.2)]), acc.2 + 1)
+    | .call _ _ (.addAll q _ ks prios) =>
+      -- a batch is submitted in slice order
+      (ks.zipIdx.foldl (fun (a : List QItems × Nat) (k, i) =>
+        (a.1.set q ((a.1.getD q []) ++ [(k, prios.getD i 0, a.2)]), a.2 + 1)) acc)
     | _ => acc) (List.replicate nq [], 0)
   let rejected := tr.filterMap (fun o => match o with | .ret _ _ _ (.add k false) => some k | _ => none)
   let qs := qs.map (fun q => q.filter (fun it => !rejected.contains it.1))
@@ -59,7 +63,39 @@ def check (p : Params) (tr : List Obs) (_ : EndInfo) : List Viol :=
     | some pos => (m + 1, if pos > m + slack then acc.2 ++ [s!"job {k} started as number {m + 1} but is number {pos + 1} in the dispatch order {pred} (limit {p.conc})"] else acc.2)
     | none => (m + 1, acc.2 ++ [s!"job {k} started but is not in the predicted order {pred}"])) (0, [])
   vs
+
+/-- the jobs of the predicted order that never started -/
+def neverStarted (p : Params) (tr : List Obs) : List Nat × List Nat :=
+  let nq := max p.queues.length 1
+  let (qs, _) := tr.foldl (fun (acc : List QItems × Nat) o => match o with
+    | .call _ _ (.add q k prio) => (acc.1.set q ((acc.1.getD q []) ++ [(k, prio, acc.2)]), acc.2 + 1)
+    | .call _ _ (.addAll q _ ks prios) =>
+      -- a batch is submitted in slice order
+      (ks.zipIdx.foldl (fun (a : List QItems × Nat) (k, i) =>
+        (a.1.set q ((a.1.getD q []) ++ [(k, prios.getD i 0, a.2)]), a.2 + 1)) acc)
+    | _ => acc) (List.replicate nq [], 0)
+  let rejected := tr.filterMap (fun o => match o with | .ret _ _ _ (.add k false) => some k | _ => none)
+  let qs := qs.map (fun q => q.filter (fun it => !rejected.contains it.1))
+  let total := qs.foldl (fun n q => n + q.length) 0
+  let pred := predict p.strategy p.queues (total + 1) qs 0
+  let entered := tr.filterMap (fun o => match o with | .enter _ k _ => some k | _ => none)
+  (pred, pred.filter (fun k => !entered.contains k))
 end C04
+
+namespace C15
+/-- C04's order predicate on several queues, plus starvation: in an "ordered" program (paused worker
+    loaded by one producer, then Resume and WaitUntilFinished) every accepted job of every bound queue
+    is dispatched; the execution may neither come to rest nor spin with a job left in a queue. -/
+def check (p : Params) (tr : List Obs) (e : EndInfo) : List Viol :=
+  C04.check p tr e ++
+  (if p.tag != "ordered" || e.crashed then [] else
+   let resumed := tr.any (fun o => match o with | .ret _ _ .resume _ => true | _ => false)
+   let (pred, missing) := C04.neverStarted p tr
+   if resumed && !missing.isEmpty then
+     [s!"job(s) {missing} of the dispatch order {pred} are never dispatched although their queue is non-empty and the worker is running (strategy {p.strategy}, " ++
+      (if e.quiescent then "execution at rest" else "event loop spins without dispatching") ++ ")"]
+   else [])
+end C15
 
 -- ===================================================================== C14 lifecycle machine
 namespace Life
@@ -187,7 +223,7 @@ structure St where
 
 def onEvent (p : Params) (s : St) (b : Book) (o : Obs) (_ : Book) : St × List Viol :=
   match o with
-  | .call _ _ (.addAll _ bid ks) => ({ s with batches := (bid, ks) :: s.batches }, [])
+  | .call _ _ (.addAll _ bid ks _) => ({ s with batches := (bid, ks) :: s.batches }, [])
   | .ret _ _ _ (.gpending bid n) =>
     let ks := lookupD [] s.batches bid
     let unfinished := (ks.filter (fun k => (b.job k).exited == 0)).length
@@ -219,20 +255,27 @@ def onEvent (p : Params) (s : St) (b : Book) (o : Obs) (_ : Book) : St × List V
   | .crash m => (s, [s!"process crashed: {m}"])
   | _ => (s, [])
 
-def atEnd (s : St) (b : Book) (e : EndInfo) : List Viol :=
+def atEnd (p : Params) (s : St) (b : Book) (fin : Option Final) (e : EndInfo) : List Viol :=
   if !e.quiescent || e.crashed || b.crashed then [] else
+  -- a running worker at rest with no worker function executing finishes nothing more (C05.atEnd):
+  -- every item of every batch has then been executed, rejected, cancelled or purged
+  let drained : Bool := match fin with
+    | some f => f.status == some .running && b.inflight == 0 && !p.gate
+    | none => false
   b.openCalls.foldl (fun vs c => match c.2 with
     | .gcollect bid =>
       let ks := lookupD [] s.batches bid
-      if ks.all (fun k => (b.job k).exited ≥ 1 || (b.job k).maybeRejected || (b.job k).closedNil) then vs ++ [s!"batch {bid}: every item has finished but the stream was never closed"] else vs
+      if ks.all (fun k => (b.job k).exited ≥ 1 || (b.job k).maybeRejected || (b.job k).closedNil) then vs ++ [s!"batch {bid}: every item has finished but the stream was never closed"]
+      else if drained then vs ++ [s!"batch {bid}: the worker is running and at rest, no item can still finish, but the stream was never closed"] else vs
     | .gwait bid =>
       let ks := lookupD [] s.batches bid
-      if ks.all (fun k => (b.job k).exited ≥ 1) then vs ++ [s!"batch {bid}: every item has finished but Wait never returned"] else vs
+      if ks.all (fun k => (b.job k).exited ≥ 1) then vs ++ [s!"batch {bid}: every item has finished but Wait never returned"]
+      else if drained then vs ++ [s!"batch {bid}: the worker is running and at rest, no item can still finish, but Wait never returned (NumPending never reached 0)"] else vs
     | _ => vs) []
 
 def check (p : Params) (tr : List Obs) (e : EndInfo) : List Viol :=
   let (s, b, vs) := foldCheck ({} : St) (onEvent p) tr
-  vs ++ atEnd s b e ++ (if e.crashed then ["process crashed"] else [])
+  vs ++ atEnd p s b (finalOf tr) e ++ (if e.crashed then ["process crashed"] else [])
 end C08
 
 -- ===================================================================== C07 outcomes
@@ -271,7 +314,7 @@ def check (p : Params) (tr : List Obs) (e : EndInfo) : List Viol :=
 end C07
 
 def allChecks2 : List (String × (Params → List Obs → EndInfo → List Viol)) :=
-  allChecks ++ [("C04", C04.check), ("C15", C04.check), ("C14", C14.check), ("C18", C18.check), ("C08", C08.check), ("C07", C07.check)]
+  allChecks ++ [("C04", C04.check), ("C15", C15.check), ("C14", C14.check), ("C18", C18.check), ("C08", C08.check), ("C07", C07.check)]
 
 end Spec
 end VarmqVerif
